@@ -58,6 +58,44 @@ impl Clock {
     }
 }
 
+type Job = Box<dyn FnOnce() + Send + 'static>;
+static OTHER_THREAD: std::sync::OnceLock<std::sync::mpsc::Sender<Job>> = std::sync::OnceLock::new();
+
+/// Run `f` on the harness's second OS thread and wait for it (a thread per operation is far too slow
+/// for 10^6 operations). The closure may borrow from the caller: the caller blocks until it has run.
+fn on_other_thread<R: Send, F: FnOnce() -> R + Send>(f: F) -> R {
+    let tx = OTHER_THREAD.get_or_init(|| {
+        let (tx, rx) = std::sync::mpsc::channel::<Job>();
+        std::thread::Builder::new()
+            .name("tm-other".into())
+            .spawn(move || {
+                for job in rx {
+                    job();
+                }
+            })
+            .expect("tool: spawn");
+        tx
+    });
+    let mut slot: Option<std::thread::Result<R>> = None;
+    let (done_tx, done_rx) = std::sync::mpsc::channel::<()>();
+    {
+        let slot_ref = &mut slot;
+        let job: Box<dyn FnOnce() + Send + '_> = Box::new(move || {
+            *slot_ref = Some(std::panic::catch_unwind(std::panic::AssertUnwindSafe(f)));
+            let _ = done_tx.send(());
+        });
+        // SAFETY: the job is executed and finished before this function returns (we block on
+        // done_rx), so everything it borrows outlives its execution
+        let job: Job = unsafe { std::mem::transmute::<Box<dyn FnOnce() + Send + '_>, Job>(job) };
+        tx.send(job).expect("tool: other thread gone");
+        done_rx.recv().expect("tool: other thread died");
+    }
+    match slot.expect("tool: job did not run") {
+        Ok(r) => r,
+        Err(p) => std::panic::resume_unwind(p),
+    }
+}
+
 /// The two injected sources and the environment under which operations run (Stopwatch.tla: amb, thr).
 struct Env {
     a: Clock,
@@ -86,14 +124,7 @@ impl Env {
             let _guard = amb.map(set_time_source);
             f()
         };
-        if self.other {
-            std::thread::scope(|s| match s.spawn(body).join() {
-                Ok(r) => r,
-                Err(p) => std::panic::resume_unwind(p),
-            })
-        } else {
-            body()
-        }
+        if self.other { on_other_thread(body) } else { body() }
     }
     fn set(&mut self, amb: u64, other: bool, st: &mut Stats) {
         self.amb = amb as u8;
